@@ -323,3 +323,26 @@ def witness_legacy_entity_prefix():
 
 from vfy.lemmas.common import SC   # noqa: E402
 i5_ampersand.__lemma__.canary = [{'k': 4, 'noexcl': True}]
+
+
+TABLE_ALPH = '-:| >a1+'
+
+
+@lemma('I2.table', 'C14', quick=[{'k': k} for k in (1, 2, 3)], thorough=[{'k': k} for k in (1, 2, 3, 4, 5)], timeout=600, per_path=60,
+       covers=['block_token.py:Table.read', 'block_token.py:Table.check_interrupts_paragraph'],
+       note="'a | b' followed by a line of k symbolic characters over {- : | space > a 1 +}: Table.read accepts the pair only if the second line is a delimiter row by the GFM grammar (otherwise both lines stay prose)")
+def i2_table(c1: int, c2: int, c3: int, c4: int, c5: int) -> bool:
+    """
+    pre: all_in(TABLE_ALPH, P('k'), c1, c2, c3, c4, c5)
+    post: _
+    """
+    import mistletoe.block_token as bt
+    import mistletoe.block_tokenizer as btk
+    from vfy.ref.grammar import COMPILED
+    x = S(P('k'), c1, c2, c3, c4, c5) + '\n'
+    fw = btk.FileWrapper(['a | b\n', x, 'c | d\n'])
+    res = bt.Table.read(fw)
+    spec = COMPILED['TableDelimiter'].fullmatch(x) is not None and '|' in x
+    if res is None:
+        return fw._index == -1
+    return spec
